@@ -195,6 +195,16 @@ func (x *Exec) assertsBefore(fr *Frame, st *State, in *ssa.Call) {
 			for k, v := range fr.lets {
 				ev.lets[k] = v
 			}
+			if strings.TrimSpace(cl.Src) == "true" {
+				// a flag: true on exactly the executions that pass through a call addressed by the clause (the path
+				// condition here), false elsewhere - path-sensitive, unlike a bound value
+				prev := False
+				if old, ok := fr.lets[cl.Bind]; ok && old.T != nil {
+					prev = old.T
+				}
+				fr.lets[cl.Bind] = &Val{T: Or(prev, st.pc), Typ: boolT}
+				continue
+			}
 			v := ev.eval(cl.Expr)
 			fr.lets[cl.Bind] = v
 		}
@@ -662,6 +672,13 @@ func (x *Exec) newFrame(fn *ssa.Function, args []*Val, free []*Val, st *State, c
 		}
 	}
 	fr.contract = x.prog.contractFor(fn)
+	if fr.contract != nil && caller == nil {
+		for _, cl := range fr.contract.Clauses {
+			if cl.Kind == "bind" && strings.TrimSpace(cl.Src) == "true" {
+				fr.lets[cl.Bind] = &Val{T: False, Typ: boolT}
+			}
+		}
+	}
 	fr.loops = x.prog.loopsOf(fn)
 	return fr
 }
@@ -2205,6 +2222,9 @@ func cutCallName(c *Contract, in *ssa.Call) string {
 	if name == "" {
 		// a call through a function-typed field (p.ParseOne(...)): addressed by the field's name
 		switch v := in.Call.Value.(type) {
+		case *ssa.Parameter:
+			// a call of a function-typed parameter: addressed by the parameter's name
+			name = v.Name()
 		case *ssa.Field:
 			if st, ok := v.X.Type().Underlying().(*types.Struct); ok {
 				name = st.Field(v.Field).Name()
